@@ -8,34 +8,57 @@ PARTIAL = [
     "0<=orderingWidth<=1 => legalizeExact p c = ok c: positions, orientations, everything unchanged), via "
     "cell_order_sorted_perm (sortKeys is a sorted permutation), abacus_keeps_own_row (placeCell search returns the own segment "
     "at cost 0, legalizers unchanged), abacus_pass_fixed, legalize_idempotent_any_key (any key rounding that keeps the "
-    "left-to-right order). NOT proved: that the binary32 key as compiled keeps that order on the property's domain — "
-    "legalize_idempotent_binary32 takes 'the f32 key of every movable cell equals the exact key' as a hypothesis (it is the "
-    "property's own assumption; |v| < 2^20 alone does not imply it for non-dyadic weights, and for huge orderingHeight the "
-    "statement is false for binary32: idempotence_binary32_needs_exact_key, kernel-evaluated and replayed on the real code — "
-    "orderingHeight = 2^30 passes LegalizationParameters::check, both keys round to 2^31, the two cells of a legal row are "
-    "swapped with orderingWidth = 1/2; candidate known finding, witness corpus/C11/kf2-candidate.json, NOT in "
-    "known_findings.json; the generator draws |orderingHeight| <= 100 so the stream does not reach it); supported by the "
-    "`order` sub-stream and by re-legalizing legal placements on the real code and on the f32 model.",
+    "left-to-right order).",
+    "for the binary32 key AS COMPILED the property's clause 'all parameter sets' is FALSE (known finding KF-C11-2, "
+    "idempotence_binary32_needs_exact_key / kf2_witness_in_class, kernel-evaluated and replayed on the real code from "
+    "corpus/C11/kf2.json on every run: orderingHeight = 2^30 passes LegalizationParameters::check, both keys round to 2^31, the "
+    "two cells of a legal row are swapped with orderingWidth = 1/2 and coordinates < 8).  What IS proved for binary32, without "
+    "any key-exactness hypothesis: f32 (round-to-nearest-even over Rat, subnormals, no overflow) is monotone (f32_monotone) and "
+    "exact on integers |v| <= 2^24 and on dyadics m*2^k, |m| <= 2^24, k >= -149 (f32_exact_on_integers/_dyadics); hence for "
+    "0<=orderingWidth<=1, |x|,w <= 2^24 and EVERY orderingY/orderingHeight the rounded keys of two same-row cells are never "
+    "strictly inverted (order_never_inverted_binary32), and a legal single-row placement with no index-inverted TIE of rounded "
+    "keys among the cells of one free segment is a fixed point of the compiled legalize (legalize_idempotent_binary32_classified); "
+    "the executable classifier kf2ClassSeg is exactly the negation of the order-keeping hypothesis KeyOrderSeg (kf2_class_iff_not_key_order) "
+    "and outside it the compiled legalize is idempotent for any parameters (legalize_idempotent_binary32_not_kf2, "
+    "legalize_twice_binary32_not_kf2).  NOT proved: any closed-form bound on orderingHeight/orderingY/coordinates under which "
+    "the class is empty (ties depend on the magnitudes of all four terms; legalize_idempotent_binary32 keeps the 'key exact' "
+    "form of that hypothesis); cases inside the class are classified KF-C11-2, not claimed.",
+    "the Lean classifier kf2 (kf2ClassSeg f32 over computeRows: pairs of cells of one free row SEGMENT) is the harness' KF-C11-2 "
+    "classifier; the two are compared on every case by the `kf2` sub-stream (harness binary32 arithmetic + independent free-"
+    "segment computation vs the Lean definition the theorems use), together with the row-wide variant kf2Class.  Cells of "
+    "different segments of one row may be visited in any order (proved: IdemOK.order/KeyOrderSeg are per segment; kernel-"
+    "evaluated on splitCircuit; measured: kf2_cross_segment_inversion_only_stable).",
     "OrientLegal is an explicit hypothesis (C01's Legal says nothing about orientations): no movable cell has orientation "
     "INVALID and a polarised cell already has the orientation cellOrientationInRow prescribes in its segment; the harness' "
     "legal placements satisfy it (outputs of legalize, and constructed ones carry the row-demanded orientation).",
     "'legalizing twice = legalizing once' IS proved for arbitrary input positions (legalize_twice: C01.Dom, all movable cells one "
     "row high, exact key, 0<=orderingWidth<=1: if the first call returns c' the second returns c' again; the first result is "
-    "shown to be in the domain, legal by C01's legalize_legal, and orientation-legal); for the compiled binary32 key the same "
-    "order-keeping hypothesis as above is needed on the first result (legalize_twice_any_key).",
+    "shown to be in the domain, legal by C01's legalize_legal, and orientation-legal); for the compiled binary32 key the first "
+    "result must be outside the KF-C11-2 class (legalize_twice_binary32_not_kf2 / legalize_twice_any_key).",
 ]
 ASSUMPTIONS = [
     "same model and assumptions as C01 (lean/ColoVerif/Model/Legalize.lean)",
     "legal placement = positions legal by the independent oracle and polarised cells carry the orientation their row demands",
     "KF-C11-1 classifier: the run's legalization.orderingWidth is outside [0,1]",
+    "KF-C11-2 classifier (evaluated on the input before the code runs, only when KF-C11-1 does not apply): with the keys of "
+    "LegalizerBase::computeCellOrder recomputed in binary32 in the same expression order, two movable cells of one free row "
+    "segment, a entirely left of b, have key(a) > key(b), or key(a) == key(b) and index(a) > index(b)",
+    "x86-64/SSE float arithmetic of the harness' classifier = the library's (no FMA contraction, FLT_EVAL_METHOD 0); checked "
+    "per case against the f32 model by the `kf2` and `order` sub-streams",
+    "at most 60 oracle lines are written per known finding (vh::Out drops lines after 200 failures); all hits are counted in the distribution",
 ]
 LEVEL_TEXT = ("Lean 4 theorems over the executable legalization model: circuit-level idempotence legalize p c = ok c for every legal "
-              "single-row circuit of the C01 domain with orderingWidth in [0,1] (exact key; binary32 key under key exactness), built "
-              "from order preservation of the ordering key (exact key, and non-inversion under any monotone rounding), the sorted-"
-              "permutation property of computeCellOrder, abacus_keeps_own_row, zero-cost/no-move of RowLegalizer on conflict-free "
-              "targets, and the kernel-evaluated negation for orderingWidth = 2 (KF-C11-1 witness, replayed on the code). Tied to Circuit::legalize by a differential stream of legal placements "
-              "(legalize then legalize again) with parameters over the whole accepted range; the direct oracle compares x/y "
-              "before and after on the real code")
+              "single-row circuit of the C01 domain with orderingWidth in [0,1] for the exact key, and for the binary32 key as compiled "
+              "whenever the input is outside the class of known finding KF-C11-2 (no index-inverted tie of the rounded keys among the "
+              "cells of a row; f32 proved monotone and exact on integers <= 2^24 and 24-bit dyadics, so rounding never strictly inverts "
+              "two keys, for every orderingY/orderingHeight). Built from order preservation of the ordering key, the sorted-permutation "
+              "property of computeCellOrder, abacus_keeps_own_row, zero-cost/no-move of RowLegalizer on conflict-free targets; kernel-"
+              "evaluated negations for orderingWidth = 2 (KF-C11-1) and orderingHeight = 2^30 (KF-C11-2), both replayed on the code. "
+              "Tied to Circuit::legalize by a differential stream of legal placements (KF-C11-2 class, cell order, legalize, legalize "
+              "again) with parameters over the whole accepted range incl. |orderingHeight| up to 2^40; the direct oracle compares x/y "
+              "before and after on the real code and demands that every moved case is in the class of KF-C11-1 or KF-C11-2")
 LEVEL_NOTE = ("Trusted: Lean kernel (axioms propext/Classical.choice/Quot.sound only), the model's tie to the code (differential), "
-              "unbounded Int, f32 model of binary32. Known finding KF-C11-1 (orderingWidth outside [0,1]) is classified, not fixed.")
+              "unbounded Int, f32 model of binary32. Known findings KF-C11-1 (orderingWidth outside [0,1]) and KF-C11-2 (binary32 key "
+              "ties under unbounded orderingHeight) are classified from the input, not fixed; the property as stated ('all parameter "
+              "sets') does not hold for the compiled code inside those classes.")
 TECHNIQUE = "Lean 4 proof + correspondence stream on legal placements + before/after oracle + known-finding classifier"
